@@ -936,3 +936,134 @@ func R_C10_stress_stopmany() {
 		}
 	}
 }
+
+// ---- re-association overlapping the teardown ---------------------------------
+
+// served lists the local addresses of the association sockets that still serve
+// the peer: under the engine the dialled fake sockets that are open; natively
+// the source addresses seen so far that answer a heartbeat.
+func (w *vC10World) servedBy(p *vC10Peer, seen map[string]*net.UDPAddr) []string {
+	var out []string
+	if vInEngine() {
+		for k, c := range p.dialed {
+			if n, _, _ := c.snapshot(); n == 0 {
+				out = append(out, fmt.Sprintf("socket#%d", k))
+			}
+		}
+		return out
+	}
+	for _, a := range seen {
+		_, _ = p.udp.WriteToUDP(vMarshal(message.NewHeartbeatRequest(77, ie.NewRecoveryTimeStamp(vTS), nil)), a)
+	}
+	end := time.Now().Add(150 * time.Millisecond)
+	buf := make([]byte, 2048)
+	got := map[string]bool{}
+	for time.Now().Before(end) {
+		_ = p.udp.SetReadDeadline(time.Now().Add(30 * time.Millisecond))
+		n, from, err := p.udp.ReadFromUDP(buf)
+		if err != nil {
+			continue
+		}
+		if m, err := message.Parse(buf[:n]); err == nil && m.MessageType() == message.MsgTypeHeartbeatResponse && m.Sequence() == 77 {
+			got[from.String()] = true
+		}
+	}
+	for a := range got {
+		out = append(out, a)
+	}
+	return out
+}
+
+// drain reads what the peer received so far (native) and remembers the senders.
+func (p *vC10Peer) drain(seen map[string]*net.UDPAddr, d time.Duration) {
+	if p.udp == nil {
+		return
+	}
+	end := time.Now().Add(d)
+	buf := make([]byte, 2048)
+	for time.Now().Before(end) {
+		_ = p.udp.SetReadDeadline(time.Now().Add(20 * time.Millisecond))
+		_, from, err := p.udp.ReadFromUDP(buf)
+		if err == nil {
+			seen[from.String()] = from
+		}
+	}
+}
+
+// vC10ReassocScenario: the peer releases its association and, without waiting,
+// sends a new Association Setup Request that reaches the LISTENING socket (the
+// association's socket is being closed). Whatever the node makes of that
+// datagram - drop it while the old association is still registered, or create
+// a fresh association once it is forgotten - every association that is being
+// served afterwards is the one the node has registered for the peer, and Stop
+// completes.
+func vC10ReassocScenario(w *vC10World, p *vC10Peer, settle func()) string {
+	seen := map[string]*net.UDPAddr{}
+	w.pk.deliver(p.addr, vC10FirstDatagram(vC10FirstSetup))
+	settle()
+	p.drain(seen, 60*time.Millisecond)
+	if w.registered(p) == nil {
+		return "reassoc:first-association-registered"
+	}
+	w.send(p, vMarshal(message.NewAssociationReleaseRequest(61, ie.NewNodeID("", "", "cp.test"))))
+	w.pk.deliver(p.addr, vMarshal(message.NewAssociationSetupRequest(62, ie.NewNodeID("", "", "cp.test"), ie.NewRecoveryTimeStamp(vTS))))
+	settle()
+	p.drain(seen, 60*time.Millisecond)
+	reg := w.registered(p)
+	for _, s := range w.servedBy(p, seen) {
+		ok := false
+		if reg != nil {
+			if vInEngine() {
+				for k, c := range p.dialed {
+					if fmt.Sprintf("socket#%d", k) == s && reg.Conn == net.Conn(c) {
+						ok = true
+					}
+				}
+			} else {
+				ok = reg.LocalAddr().String() == s
+			}
+		}
+		if !ok {
+			return "reassoc:every-association-that-is-served-is-the-registered-one"
+		}
+	}
+	w.fire(vC10Stop)
+	settle()
+	if !vInEngine() {
+		vC10Wait(w.nodeDone, 2*time.Second)
+	}
+	if !w.nodeDone() {
+		return "stop:completes"
+	}
+	return ""
+}
+
+// H_C10_reassoc: under the engine, every interleaving within the bound.
+func H_C10_reassoc() {
+	vConcreteClock(1000)
+	w, p := vC10NewPeerWorld()
+	vSettle()
+	vPreemptAtChans(vC10Switches)
+	msg := vC10ReassocScenario(w, p, vSettle)
+	for _, l := range []string{"reassoc:first-association-registered", "reassoc:every-association-that-is-served-is-the-registered-one", "stop:completes"} {
+		vAssert(l, msg != l)
+	}
+	vJoin()
+	vCover("reassoc")
+}
+
+// R_C10_stress_reassoc: native counterpart on real loopback UDP sockets.
+func R_C10_stress_reassoc() {
+	deadline := time.Now().Add(40 * time.Second)
+	for round := 0; round < 400 && time.Now().Before(deadline); round++ {
+		w, p := vC10NewPeerWorld()
+		msg := vC10ReassocScenario(w, p, func() { time.Sleep(time.Duration(1+rand.Intn(3)) * time.Millisecond) })
+		_ = p.udp.Close()
+		if msg != "" {
+			if msg == "stop:completes" {
+				msg = "hang: " + msg
+			}
+			vStressFail(fmt.Sprintf("round %d: %s", round, msg))
+		}
+	}
+}
